@@ -387,17 +387,22 @@ func (t *table) compile(id int, asInit bool) []byte {
 			endProbe()
 		}
 	}
+	// memory for the terminator is written / expanded before the last step probe, so that running out of gas
+	// while doing so is seen as "died before the terminator"; after the probe only a few cheap opcodes remain
+	var rt []byte
+	switch {
+	case p.Fin == "return" && asInit:
+		rt = t.compile(p.FinArg, false)
+		a.mem(0, rt)
+	case p.Fin == "returnbig":
+		a.push(maxCode - 31).op(opMLOAD, opPOP)
+	}
 	a.push(uint64(probeStep + len(p.Acts))).op(opBLOCKHASH, opPOP)
 	switch p.Fin {
 	case "stop":
 		a.op(opSTOP)
 	case "return":
-		if asInit {
-			rt := t.compile(p.FinArg, false)
-			a.mem(0, rt).push(uint64(len(rt))).push(0).op(opRETURN)
-		} else {
-			a.push(0).push(0).op(opRETURN)
-		}
+		a.push(uint64(len(rt))).push(0).op(opRETURN)
 	case "returnbig":
 		a.push(maxCode + 1).push(0).op(opRETURN)
 	case "revert":
